@@ -79,6 +79,9 @@ func ownList(c *Ctx, v ssa.Value, depth int) (string, bool) {
 		case "(reflect.Value).Field", "reflect.Indirect", "(reflect.Value).Elem", "reflect.ValueOf":
 			return ownList(c, x.Common().Args[0], depth+1)
 		}
+		if fnPkgPath(f) == modPath && len(f.Blocks) > 0 && f.Signature.Results().Len() == 1 {
+			return ownListReturns(c, f, 0, depth)
+		}
 		return "the result of " + strings.TrimPrefix(f.String(), modPath+"."), false
 	case *ssa.Phi:
 		for _, e := range x.Edges {
@@ -122,9 +125,36 @@ func ownList(c *Ctx, v ssa.Value, depth int) (string, bool) {
 	case *ssa.Alloc, *ssa.FieldAddr:
 		return "", true
 	case *ssa.Extract:
+		if call, ok := x.Tuple.(*ssa.Call); ok {
+			if f := call.Common().StaticCallee(); f != nil && fnPkgPath(f) == modPath && len(f.Blocks) > 0 {
+				return ownListReturns(c, f, x.Index, depth)
+			}
+		}
 		return "a component of a call result", false
+	case *ssa.Const:
+		return "", true // the zero value on an error path
 	}
 	return fmt.Sprintf("a %T", v), false
+}
+
+// ownListReturns: every return of the selector helper f yields, at result idx, a value reached from
+// the file through Field / Indirect / Elem only (a helper that picks the file's typed container).
+func ownListReturns(c *Ctx, f *ssa.Function, idx int, depth int) (string, bool) {
+	n := 0
+	for _, b := range f.Blocks {
+		ret, ok := b.Instrs[len(b.Instrs)-1].(*ssa.Return)
+		if !ok || idx >= len(ret.Results) {
+			continue
+		}
+		n++
+		if why, ok := ownList(c, resolveSpill(ret.Results[idx]), depth+1); !ok {
+			return "the result of " + f.Name() + ", which returns " + why, false
+		}
+	}
+	if n == 0 {
+		return "the result of " + f.Name() + " (no return found)", false
+	}
+	return "", true
 }
 
 // countsUp: phi(0, phi+1).
